@@ -101,7 +101,10 @@ MpProgs == [k \in 1 .. Len(MpSeq) |->
                            ELSE AllPerturb]]
 
 Points == {"0", "1", "127", "128", "254", "255", "256", "257", "300", "65536", "2^64", "h", "r-2", "r-1", "rnd1", "rnd2"}
-ResultsFor(pt) == IF ~Quick \/ pt \in {"255", "256"} THEN <<"correct", "+1", "-1", "0", "f255", "f0", "rnd">> ELSE <<"correct", "+1", "f255", "rnd">>
+PfPerturb == <<"pfL0", "pfL7", "pfR3", "pfa", "pfswap", "pfL0id", "pfLnext">>     \* the correct result with a proof changed in one component
+ResultsFor(pt) == IF ~Quick THEN <<"correct", "+1", "-1", "0", "f255", "f0", "rnd">> \o PfPerturb
+                  ELSE IF pt \in {"255", "256"} THEN <<"correct", "+1", "-1", "0", "f255", "f0", "rnd">> \o PfPerturb
+                  ELSE <<"correct", "+1", "f255", "rnd">>
 IpaProgs == {[kind |-> "ipa", label |-> "p", poly |-> pl, point |-> pt, results |-> ResultsFor(pt)] :
                pl \in (IF Quick THEN {PolyTab[1], PolyTab[7]} ELSE {PolyTab[i] : i \in 1 .. Len(PolyTab)} \cup HalfPolys),
                pt \in (IF Part = "ipa_few" THEN {"0", "255", "256", "r-1", "rnd1"} ELSE Points)}
